@@ -60,6 +60,8 @@ pub struct Profile {
     pub wild_text: bool,
     /// huge counts (65535) allowed
     pub huge: bool,
+    /// line-feed bursts (thousands of rows scrolling off in one token) allowed
+    pub bursts: bool,
     /// maximum length (characters) of a slice of a real recording (`/repo/benches/data/*.txt`)
     pub recorded_max: usize,
 }
@@ -101,6 +103,7 @@ impl Profile {
             damage_pm: 0,
             wild_text: false,
             huge: true,
+            bursts: false,
             recorded_max: 200,
         }
     }
@@ -112,6 +115,7 @@ impl Profile {
         p.fam[F_PARTIAL] = 4;
         p.fam[F_COMBO] = 5;
         p.fam[F_RECORDED] = 3;
+        p.bursts = true;
         p.fam[F_STRINGS] = 4;
         p.damage_pm = 40;
         p.wild_text = true;
@@ -196,6 +200,26 @@ pub fn extreme_size(r: &mut Rng) -> (usize, usize) {
     }
 }
 
+/// Gigantic geometries (only as the initial configuration, never as a resize target): beyond 9999
+/// and beyond the 16-bit range in one dimension, 1-2 cells in the other.
+pub fn gigantic_size(r: &mut Rng) -> (usize, usize) {
+    if r.chance(1, 2) {
+        (*r.pick(&[10_000usize, 12_000, 65_535, 65_536, 70_000]), 1 + r.usize_below(2))
+    } else {
+        (1 + r.usize_below(2), *r.pick(&[10_000usize, 12_000, 65_536, 70_000]))
+    }
+}
+
+/// With probability 1/2500 replace a drawn size by a gigantic one (used by the checks whose
+/// per-event cost does not grow with the number of cells times the number of characters).
+pub fn maybe_gigantic(r: &mut Rng, size: (usize, usize)) -> (usize, usize) {
+    if r.chance(1, 2500) {
+        gigantic_size(r)
+    } else {
+        size
+    }
+}
+
 pub fn gen_size(r: &mut Rng, max_cols: usize, max_rows: usize) -> (usize, usize) {
     if r.chance(1, 150) {
         return extreme_size(r);
@@ -236,6 +260,9 @@ pub fn gen_resize(r: &mut Rng, cols: usize, rows: usize, max_cols: usize, max_ro
 }
 
 pub fn gen_limit(r: &mut Rng) -> Option<usize> {
+    if r.chance(1, 25) {
+        return *r.pick(&[Some(40), Some(50), Some(200), Some(1000), Some(1001), Some(1500), Some(65_535), Some(65_536), Some(70_000)]);
+    }
     *r.pick(&[None, None, None, Some(0), Some(0), Some(1), Some(2), Some(5), Some(9), Some(10), Some(11), Some(20), Some(100)])
 }
 
@@ -260,7 +287,7 @@ pub fn param(r: &mut Rng, edge: usize, p: &Profile) -> String {
         6 => format!("{}", edge + 1),
         7 => format!("{}", edge.saturating_sub(1)),
         8 => format!("{}", edge / 2),
-        9 => (*r.pick(&["255", "256", "257", "1000", "4095", "4096", "4097"])).into(),
+        9 => (*r.pick(&["255", "256", "257", "1000", "4095", "4096", "4097", "9999", "10000", "12000", "20000", "65534", "65535"])).into(),
         10 => {
             if p.huge && r.chance(1, 3) {
                 "65535".into()
@@ -272,7 +299,7 @@ pub fn param(r: &mut Rng, edge: usize, p: &Profile) -> String {
     }
 }
 
-const TEXT_SET: [char; 28] = ['\u{a0}', 'a', 'b', 'c', 'x', 'y', 'z', ' ', ' ', '~', 'q', 'l', 'k', 'j', 'm', '\u{7f}', 'é', 'ß', '日', '本', '`', 'A', 'Z', '0', '#', '\u{1f600}', '\u{10348}', '\u{ffff}'];
+const TEXT_SET: [char; 32] = ['\u{feff}', '\u{200b}', '\u{ad}', '\u{2028}', '\u{a0}', 'a', 'b', 'c', 'x', 'y', 'z', ' ', ' ', '~', 'q', 'l', 'k', 'j', 'm', '\u{7f}', 'é', 'ß', '日', '本', '`', 'A', 'Z', '0', '#', '\u{1f600}', '\u{10348}', '\u{ffff}'];
 
 pub fn text_char(r: &mut Rng, p: &Profile) -> char {
     if p.wild_text && r.chance(1, 6) {
@@ -289,7 +316,7 @@ pub fn wild_char(r: &mut Rng) -> char {
         1 => 0x80 + r.below(0x20) as u32,       // C1
         2 => 0x20 + r.below(0x60) as u32,       // ASCII incl DEL
         3 => 0xa0 + r.below(0x60) as u32,       // Latin-1
-        4 => *r.pick(&[0x7f, 0xa0, 0xff, 0x100, 0xd7ff, 0xe000, 0xfffd, 0xfffe, 0xffff, 0x10000, 0x10ffff, 0x200b, 0x0301, 0x1f600]),
+        4 => *r.pick(&[0x7f, 0xa0, 0xff, 0x100, 0xd7ff, 0xe000, 0xfffd, 0xfffe, 0xffff, 0x10000, 0x10ffff, 0x200b, 0x0301, 0x1f600, 0xfeff, 0xad, 0x2028, 0x2029, 0x85, 0x061c, 0x200e]),
         5 => 0x3000 + r.below(0x6000) as u32,   // CJK-ish
         6 => 0x10000 + r.below(0x100000) as u32, // astral
         _ => r.below(0x110000) as u32,
@@ -498,7 +525,9 @@ fn garbage(r: &mut Rng, p: &Profile) -> String {
             let n = 1 + r.below(8);
             (0..n).map(|_| wild_char(r)).collect()
         }
-        7 => format!("{}8;{};{}t", intro, r.below(70000), r.below(70000)),
+        // XTWINOPS resize (disabled in avt; sizes kept moderate so that a tree which enables it is
+        // judged by the checks instead of exhausting memory)
+        7 => format!("{}8;{};{}t", intro, r.below(120), r.below(300)),
         8 => format!("{}?{}{}", intro, r.pick(&["1049;1049", "47;1047;1049", "6;6;6", "1048;1049;1048", "7;25;1"]), r.pick(&['h', 'l'])),
         _ => {
             let n = 1 + r.below(6);
@@ -515,7 +544,7 @@ fn combo(r: &mut Rng, cols: usize, rows: usize, p: &Profile) -> String {
     let alt2 = *r.pick(&["47", "1047", "1049"]);
     let save = *r.pick(&["\x1b7", "\x1b[s", "\x1b[?1048h"]);
     let restore = *r.pick(&["\x1b8", "\x1b[u", "\x1b[?1048l"]);
-    let far = *r.pick(&["\x1b[999;999H", "\x1b[999;1H", "\x1b[1;999H", "\x1b[999;999Hx"]);
+    let far = *r.pick(&["\x1b[999;999H", "\x1b[999;1H", "\x1b[1;999H", "\x1b[999;999Hx", "\x1b[65535C\x1b[65535C", "\x1b[65535B\x1b[65535B", "\x1b[65535;65535H\x1b[65535C\x1b[65535B"]);
     match r.below(12) {
         0 => format!("{}?{}h{}{}{}?{}l", intro, alt, far, save, intro, alt2),
         1 => format!("{}?{}h{}X", intro, alt, restore),
@@ -550,7 +579,8 @@ pub fn gen_token_of(r: &mut Rng, fam: usize, cols: usize, rows: usize, p: &Profi
             } else {
                 1 + r.below(max) as usize
             };
-            let n = n.min(400);
+            // on gigantic screens keep text runs short (cost = characters x cells in the model checks)
+            let n = if cols > 5000 { n.min(8) } else { n.min(400) };
             (0..n).map(|_| text_char(r, p)).collect()
         }
         F_C0 => (*r.pick(&[
@@ -571,8 +601,13 @@ pub fn gen_token_of(r: &mut Rng, fam: usize, cols: usize, rows: usize, p: &Profi
             _ => format!("{}{};{}{}", intro, param(r, rows, p), param(r, cols, p), r.pick(&['H', 'f'])),
         },
         F_SCROLL => match r.below(8) {
-            0 => "\n".repeat(1 + r.usize_below(rows + 2)),
-            1 => "\x1bM".repeat(1 + r.usize_below(rows + 1)),
+            0 if p.bursts && cols <= 200 && r.chance(1, 12) => {
+                // a burst of line feeds: thousands of rows scroll off
+                let n = if cols <= 3 && r.chance(1, 25) { 72_200 } else { *r.pick(&[1_150usize, 1_700, 4_000]) };
+                format!("x{}", "\n".repeat(n))
+            }
+            0 => "\n".repeat(1 + r.usize_below(rows.min(60) + 2)),
+            1 => "\x1bM".repeat(1 + r.usize_below(rows.min(60) + 1)),
             2 => (*r.pick(&["\x1bD", "\x1bE", "\u{84}", "\u{85}", "\u{8d}"])).into(),
             _ => {
                 let f = *r.pick(&['S', 'T', 'L', 'M']);
@@ -600,7 +635,7 @@ pub fn gen_token_of(r: &mut Rng, fam: usize, cols: usize, rows: usize, p: &Profi
                 format!("{}{}{}", intro, m, r.pick(&['h', 'l']))
             }
             _ => {
-                let m = *r.pick(&["1", "6", "7", "25", "6", "7", "6;7", "7;6", "25;1", "1;2;3;4;5;6;7;8;9;10;11;12;13;14;15;16;17;18;19;25", "7;7;7;7;7;7;7;7;7;7;7;7;7;7;7;7;7;6"]);
+                let m = *r.pick(&["1", "6", "7", "25", "6", "7", "6;7", "7;6", "25;1", "2004", "2026", "1000", "1006", "12", "5", "3", "1004", "2026;7", "69",  "1;2026", "1;2;3;4;5;6;7;8;9;10;11;12;13;14;15;16;17;18;19;25", "7;7;7;7;7;7;7;7;7;7;7;7;7;7;7;7;7;6"]);
                 format!("{}?{}{}", intro, m, r.pick(&['h', 'l']))
             }
         },
@@ -612,7 +647,11 @@ pub fn gen_token_of(r: &mut Rng, fam: usize, cols: usize, rows: usize, p: &Profi
             _ => "\t".into(),
         },
         F_CHARSETS => (*r.pick(&["\x1b(0", "\x1b(B", "\x1b)0", "\x1b)B", "\x0e", "\x0f", "\x0e", "\x0f"])).into(),
-        F_SAVE => (*r.pick(&["\x1b7", "\x1b8", "\x1b[s", "\x1b[u", "\x1b[?1048h", "\x1b[?1048l", "\u{9b}s", "\u{9b}u"])).into(),
+        F_SAVE => (*r.pick(&[
+            "\x1b7", "\x1b8", "\x1b[s", "\x1b[u", "\x1b[?1048h", "\x1b[?1048l", "\u{9b}s", "\u{9b}u", "\x1b7", "\x1b8", "\x1b[s", "\x1b[u", "\x1b[?1048h", "\x1b[?1048l",
+            "\x1b[?6;1048h", "\x1b[?7;1049h", "\x1b[?1048;6h", "\x1b[?7;1048;6h", "\x1b[?6;7;1049h", "\x1b[?7;1048l", "\x1b[?1048;7l", "\x1b[?6;1048l",
+        ]))
+        .into(),
         F_ALT => {
             let m = *r.pick(&["47", "1047", "1049", "1049", "1047;1048", "1048;1047"]);
             format!("{}?{}{}", intro, m, r.pick(&['h', 'l']))
@@ -737,8 +776,9 @@ fn cut_run(r: &mut Rng, run: &[Atom], policy: CutPolicy, dp: DrainPolicy, out: &
                 }
                 e
             }
-            CutPolicy::RandomK | CutPolicy::FeedLoop | CutPolicy::Mixed => (i + 1 + r.usize_below(8)).min(n),
-            CutPolicy::EveryChar => i + 1,
+            // very long runs (line-feed bursts) are not cut into tens of thousands of calls
+            CutPolicy::RandomK | CutPolicy::FeedLoop | CutPolicy::Mixed => (i + 1 + r.usize_below(8) + n / 60).min(n),
+            CutPolicy::EveryChar => (i + 1 + n / 60).min(n),
         };
         let s: String = chars[i..end].iter().map(|c| c.0).collect();
         if policy == CutPolicy::Mixed && r.chance(1, 40) {
@@ -791,5 +831,6 @@ pub fn damage(r: &mut Rng, tok: &str) -> (String, &'static str) {
 
 pub fn gen_config(r: &mut Rng, max_cols: usize, max_rows: usize, limits: bool) -> Config {
     let (cols, rows) = gen_size(r, max_cols, max_rows);
+    let (cols, rows) = maybe_gigantic(r, (cols, rows));
     Config { cols, rows, limit: if limits { gen_limit(r) } else { None } }
 }
